@@ -31,20 +31,27 @@ pub fn gen_case(rng: &mut Rng) -> MergeCase {
     };
     let universe = *rng.pick(&[1usize, 3, 8, 30, 200, 600]);
     let long_keys = rng.chance(1, 4);
-    let keys: Vec<Vec<u8>> = {
-        let mut v: Vec<Vec<u8>> = (0..universe)
-            .map(|i| {
-                let mut key = if i == 0 && rng.chance(1, 3) { vec![] } else { (i as u32).to_be_bytes().to_vec() };
-                if long_keys && !key.is_empty() {
-                    key.extend(vec![b'x'; 150]);
-                }
-                key
-            })
-            .collect();
-        v.sort();
-        v.dedup();
-        v
+    let keys: Vec<Vec<u8>> = match rng.below(4) {
+        // tiny alphabet: dense prefix relations, keys differing only by trailing 0x00 / 0xFF bytes
+        0 => gen::gen_keys(rng, gen::KeyShape::K1, universe),
+        // random binary, variable length
+        1 => gen::gen_keys(rng, gen::KeyShape::K4, universe),
+        _ => {
+            let mut v: Vec<Vec<u8>> = (0..universe)
+                .map(|i| {
+                    let mut key = if i == 0 && rng.chance(1, 3) { vec![] } else { (i as u32).to_be_bytes().to_vec() };
+                    if long_keys && !key.is_empty() {
+                        key.extend(vec![b'x'; 150]);
+                    }
+                    key
+                })
+                .collect();
+            v.sort();
+            v.dedup();
+            v
+        }
     };
+    let keys = if keys.is_empty() { vec![vec![1u8]] } else { keys };
     let pattern = *rng.pick(&["identical", "disjoint", "nested", "interleaved", "random", "random", "some-empty", "all-empty"]);
     let mut sources = Vec::new();
     for si in 0..k {
@@ -292,7 +299,7 @@ fn check_case(ctx: &Ctx, stream: &str, idx: u64, case: &MergeCase, rng: &mut Rng
 }
 
 pub fn run(ctx: &Ctx) -> i32 {
-    let n = ctx.n(5000, 200_000);
+    let n = ctx.n(40_000, 600_000);
     ctx.par("random", n, true, |idx, rng| {
         let case = gen_case(rng);
         check_case(ctx, "random", idx, &case, rng);
